@@ -58,3 +58,80 @@ def eq_twins(seed, count, shard, nshards, hashmode=0):
 
 
 GENERATORS = {"eq_twins": eq_twins}
+
+
+def big_ops(seed, count, shard, nshards, hashmode=0, focus="all"):
+    """size thresholds: bulk strategies, fast paths and capacities that only
+    kick in above 1024 / 4096 elements.  `count` = number of sizes to use from
+    the list below (each gives 2 kinds x 3 patterns histories); `focus`
+    selects the operations the property speaks about."""
+    sizes = [1100, 4200, 5000, 9000][:count]
+    out = []
+    hid = 0
+    for n in sizes:
+        for kind in ("pq", "dpq"):
+            for pat in ("asc", "desc", "rand"):
+                hid += 1
+                if hid % nshards != shard:
+                    continue
+                rng = random.Random(seed * 7919 + hid)
+                if pat == "asc":
+                    pr = list(range(n))
+                elif pat == "desc":
+                    pr = list(range(n, 0, -1))
+                else:
+                    pr = [rng.randrange(0, 16) for _ in range(n)]       # many ties
+                trip = " ".join("%d %d %d" % (k, 100 + k, p) for k, p in enumerate(pr))
+                sides = ["max"] if kind == "pq" else ["min", "max"]
+                ops = []
+                ctors = {"serde": ["deser"], "sorted": ["fromvec", "deser"], "clear": ["fromvec", "withcap"],
+                         "bulk": ["fromvec", "fromiter", "withcap"]}.get(focus, ["fromvec", "fromiter", "deser", "withcap"])
+                ctor = rng.choice(ctors)
+                if ctor == "fromvec":
+                    ops.append("fromvec %s 0 %d %s" % (kind, n, trip))
+                elif ctor == "fromiter":
+                    ops.append("fromiter %s 0 %d %d %d %s" % (kind, n, n, n, trip))
+                elif ctor == "deser":
+                    ops.append("deser %s 0 %d %s" % (kind, n, trip))
+                else:
+                    ops += ["withcap %s 0 %d" % (kind, n + 50), "extend 0 0 - %d %s" % (n, trip)]
+                ops += ["len 0"]
+                for sd in sides:
+                    ops += ["peek 0 " + sd]
+                if focus in ("all", "sorted"):
+                    for sd in sides:
+                        ops += ["sortedvec 0 " + sd]
+                    ops += ["sortediter 0 direct count 2 n n", "sortediter 0 direct drop 3 nth:%d s n" % (n - 2)]
+                if focus in ("all",):
+                    ops += ["debug 0", "iter 0 direct last 1 nth:%d" % (n // 2), "intoiter 0 rev count 0", "intovec 0",
+                            "clone 0 1", "eq 0 1", "convert 1", "convert 1", "eq 0 1"]
+                if focus in ("all", "serde"):
+                    ops += ["serde 0 %s 2" % ("dpq" if kind == "pq" else "pq"), "serde 0 %s 1" % kind]
+                    for sd in sides:
+                        ops += ["peek 1 " + sd, "pop 1 " + sd, "peek 1 " + sd]
+                    ops += ["len 1", "len 2"]
+                if focus in ("all", "bulk"):
+                    ops += ["clone 0 1"]
+                    for sd in sides:
+                        ops += ["pop 0 " + sd, "pop 1 " + sd]
+                    ops += ["retainmut 1 1 2 3 %d 1 5 - 0" % (n * 2), "len 1"]
+                    for sd in sides:
+                        ops += ["peek 1 " + sd]
+                    ops += ["extend 1 0 - 3 %d 0 1 %d 0 2 3 0 7" % (n + 5, n + 6),
+                            "extend 1 %d %d %d %s" % (n, n, n, trip), "append 0 1", "len 0", "len 1", "convert 0"]
+                    for sd in ["min", "max"] if kind == "pq" else ["max"]:
+                        ops += ["peek 0 " + sd]
+                if focus in ("all", "clear"):
+                    # capacity-dependent paths of clear / drain
+                    ops += ["clone 0 1", "clear 1", "len 1", "isempty 1", "push 1 1 0 1", "pop 1 max",
+                            "drain 0 direct forget 2 n b", "len 0", "push 0 2 0 2", "push 0 3 0 1", "pop 0 max",
+                            "withcap %s 1 %d" % (kind, n), "push 1 1 0 1", "push 1 2 0 2", "clear 1", "len 1",
+                            "push 1 3 0 3", "peek 1 max", "withcap %s 2 %d" % (kind, n), "push 2 1 0 1",
+                            "drain 2 direct drop 0", "len 2", "push 2 4 0 4", "pop 2 max"]
+                out.append("H %d %d 3\n%s\n" % (hid, hashmode, "\n".join(ops)))
+    return "".join(out)
+
+
+GENERATORS["big_ops"] = big_ops
+for _f in ("sorted", "serde", "clear", "bulk"):
+    GENERATORS["big_" + _f] = (lambda f: (lambda seed, count, shard, nshards: big_ops(seed, count, shard, nshards, focus=f)))(_f)
